@@ -48,8 +48,14 @@ KSnapAccept(k) ==
     IF Len(k.classes) > 1 THEN AllBatchable(k.classes)
     ELSE InitialOK(k.classes, k.local, k.round0) /\ ValidateRefOK(k.classes[1], k.ref, k.tsk, k.rep)
 
+VSTStates == { "finalized", "persisted", "cached", "missing" }
+VSTInv == \A cl \in { k \in SeqsUpTo({"script", "deposit", "mint", "pledge"}, 3) : Len(k) > 1 } :
+            \A st \in [1 .. Len(cl) -> VSTStates] : \A f \in BOOLEAN :
+              VSTAccept(cl, st, f) => \A i \in DOMAIN cl : st[i] = "missing" \/ cl[i] \in Batchable
+
 Inv ==
     /\ IsChain(chain)
+    /\ VSTInv
     /\ (Family = "snap" /\ c # NoCase /\ KSnapAccept(c)) => KSnapNecessary(c.classes, c.ref, c.tsk, c.rep)
 
 StepProp == [][ \/ chain' = chain
